@@ -496,6 +496,16 @@ func runMyRawClient(conn net.Conn, script []Stmt, results []StmtResult, o myRawO
 			execs = 2
 		}
 		for e := 0; e < execs; e++ {
+			if e > 0 {
+				// another statement goes through the proxy before the second execution
+				var between StmtResult
+				if err := c.command(0x03, []byte("SELECT id FROM t1 WHERE id = -1")); err != nil {
+					return fmt.Errorf("statement %d: %w", i, err)
+				}
+				if err := c.readResult(&between, false, o); err != nil {
+					return fmt.Errorf("statement %d (statement in between): %w", i, err)
+				}
+			}
 			long := map[int]bool{}
 			if o.longData {
 				for k, a := range st.Args {
